@@ -60,6 +60,13 @@ for _pid, _what, _sec in [
                         design=_sec, technique="differential execution of extracted Coq model + direct oracle (Coq invariant proofs in progress)",
                         note=WORLD_NOTE + _INTERIM % _pid)
 
+CHECKS["C11"] = dict(category="exploration", text="Correspondence of the extracted Coq CFG model (Model/Cfg.v) with the working tree and a shadow-set oracle over random histories of every MutableSet operation; adjacency views of the CFG and of the nodes after every step.",
+                     design="5 C11", technique="differential execution of extracted Coq model + shadow-set oracle (Coq refinement proofs in progress)",
+                     note="networkx.MultiDiGraph modelled by its abstract content. " + _INTERIM % "C11")
+CHECKS["C19"] = dict(category="exploration", text="Correspondence of the extracted Coq byte-store model (Model/ByteStore.v) with the working tree plus the property's sentences as direct oracle after every size/initialized_size/contents assignment, block views at every boundary, save/load.",
+                     design="5 C19", technique="differential execution of extracted Coq model + direct oracle (Coq invariant proofs in progress)",
+                     note="bytearray semantics are CPython's. " + _INTERIM % "C19")
+
 NOT_YET = {}
 
 
